@@ -6,7 +6,7 @@ package `ioflo` itself is imported alone by
 in a clean subprocess (cwd = empty temp dir outside the repo, no PYTHONPATH / PYTHONSTARTUP,
 nothing imported before it; in particular not collections.abc).
 Oracle: exit status 0 and no traceback (warnings on stderr are not failures).
-(b) orders: Hypothesis draws subsets (2..12 modules) and permutations; one fresh process
+(b) orders: Hypothesis draws permutations of subsets (2..12 modules) and of the full module set; one fresh process
 imports them one after another, each import wrapped so its own outcome is recorded (the
 driver imports nothing but sys). Oracle (metamorphic): outcome of m after any prefix ==
 solo outcome of m (ok / exception type). A module that is ok inside an order is not imported
@@ -30,7 +30,7 @@ PROPERTY = "C01"
 LEVEL = "exploration"
 IMPORTS_IOFLO = False          # the check itself never imports ioflo in-process
 RULE = ("solo: every module found under <repo>/ioflo (exhaustive) + `import ioflo`, each in a clean "
-        "subprocess; orders: Hypothesis-drawn subsets of 2-12 modules in a drawn permutation, imported "
+        "subprocess; orders: Hypothesis-drawn permutations of subsets of 2-12 modules and of all modules, imported "
         "one after another in one fresh process, each outcome compared with the module's solo outcome. "
         "non-trivial solo = module that is not a package __init__ and imports another ioflo module; "
         "non-trivial order = modules from >= 2 different subpackages; distinct = module / module sequence")
@@ -196,14 +196,17 @@ def work(shard, seed, tier):
                 cache[m] = solo(m, cwd)
             return cache[m]
 
-        strat = st.lists(st.sampled_from(names), min_size=2, max_size=12, unique=True).flatmap(
+        small = st.lists(st.sampled_from(names), min_size=2, max_size=12, unique=True).flatmap(
             lambda sub: st.permutations(sub))
+        # a permutation of ALL modules orders every pair of modules one way or the other, so a handful of them
+        # covers most ordered pairs; small subsets keep the prefixes short (few things imported before m)
+        strat = st.one_of(small, small, st.permutations(names))
 
         def execute(order):
             order = list(order)
             fails = check_order(order, cwd, solo_cached)
             pk = set(".".join(m.split(".")[:2]) for m in order)
-            return Outcome(fails, nontrivial=len(pk) >= 2, classes=["order", "order:len%02d" % len(order)],
+            return Outcome(fails, nontrivial=len(pk) >= 2, classes=["order", "order:full" if len(order) == len(names) else "order:subset"],
                            key=("order", order), sample={"order": order})
 
         campaign(acc, strat, execute, shard["count"], seed * 1000 + shard["i"],
